@@ -41,15 +41,16 @@ type HandlerSpec struct {
 // emit:h:n | wacc | whs:n | whe:n | park:<hook>[:arg] | wpark | rel | wev:<kind>[:n] | gate | pub:h:n | nap:ms |
 // plugclose (a plugin that calls Close while Run starts up) | subgo (let gated Subscribe calls return) | cst:h (is Started() closed?)
 type Scenario struct {
-	Handlers       []HandlerSpec `json:"h"`
-	Prog           []string      `json:"p"`
-	CloseTimeoutMs int           `json:"ct,omitempty"`
-	Yield          int           `json:"y,omitempty"`
-	Seed           uint64        `json:"s,omitempty"`
-	Conf           bool          `json:"c,omitempty"` // the trace is also checked for conformance with the Lean model
-	Tag            string        `json:"t,omitempty"`
-	WaitMs         int           `json:"w,omitempty"`   // liveness bound per wait (default 20000)
-	Isolate        bool          `json:"iso,omitempty"` // run in a child process: a change under test may panic in a router goroutine
+	Handlers         []HandlerSpec `json:"h"`
+	Prog             []string      `json:"p"`
+	CloseTimeoutMs   int           `json:"ct,omitempty"`
+	Yield            int           `json:"y,omitempty"`
+	Seed             uint64        `json:"s,omitempty"`
+	Conf             bool          `json:"c,omitempty"` // the trace is also checked for conformance with the Lean model
+	Tag              string        `json:"t,omitempty"`
+	WaitMs           int           `json:"w,omitempty"`   // liveness bound per wait (default 20000)
+	FailSubDecorator bool          `json:"fd,omitempty"`  // a router-level subscriber decorator whose Close fails before it reaches the wrapped subscriber
+	Isolate          bool          `json:"iso,omitempty"` // run in a child process: a change under test may panic in a router goroutine
 }
 
 func (sc Scenario) Encode() string {
@@ -162,7 +163,7 @@ func Run(sc Scenario) *Result {
 		bound = time.Duration(sc.WaitMs) * time.Millisecond
 	}
 	ct := 150 * time.Millisecond
-	if sc.CloseTimeoutMs > 0 {
+	if sc.CloseTimeoutMs != 0 { // a negative CloseTimeout is a legal configuration (e.g. time.Until(deadline) after the deadline)
 		ct = time.Duration(sc.CloseTimeoutMs) * time.Millisecond
 	}
 	rec := NewRec(sc.Seed, sc.Yield)
@@ -182,6 +183,11 @@ func Run(sc Scenario) *Result {
 	if err != nil {
 		res.Stuck = append(res.Stuck, "NewRouter: "+err.Error())
 		return res
+	}
+	if sc.FailSubDecorator {
+		router.AddSubscriberDecorators(func(sub message.Subscriber) (message.Subscriber, error) {
+			return &failCloseSub{Subscriber: sub, rec: rec}, nil
+		})
 	}
 	var ps *gochannel.GoChannel
 	for _, h := range sc.Handlers {
@@ -697,6 +703,13 @@ func RunMaybeIsolated(sc Scenario) *Result {
 			}
 		}
 		f.Close()
+	}
+	// what the child logged after `fin` is the harness's own cleanup (cancel, final Close), not part of the trace
+	for i, e := range res.Events {
+		if e.Kind == "fin" {
+			res.Events = res.Events[:i+1]
+			break
+		}
 	}
 	race := strings.Contains(stderr.String(), "WARNING: DATA RACE")
 	if werr != nil && !(race && len(res.Events) > 0 && res.Events[len(res.Events)-1].Kind == "fin") {
